@@ -20,6 +20,15 @@ def jobs_for(tier: str, rng: random.Random, *, extreme=False, watch=False, names
             jobs.append({"name": name, "bounds": bounds, "prec": prec, "rem": rem, "bs": rng.randint(1, 2 if heavy else 4),
                          "seed": rng.randrange(2**31), "ncalls": 4 if not heavy else 3, "rseed": rng.randrange(2**31),
                          "extreme": extreme, "watch": watch})
+    # histories held as integers / in single precision on grids with elements that are neither (the proposal is a grid element all the same)
+    templates = [(0.0, 10.0, 2.5), (-3.0, 3.0, 1.5), (0.0, 1.0, 0.1), (0.0, 2.0, 0.25), (-1.0, 1.0, 0.5), (0.0, 6.0, 0.75), (5.0, 6.0, 0.1)]
+    for i in range(12 if tier == "quick" else 120):
+        d = rng.randint(1, 4)
+        dims = [rng.choice(templates) for _ in range(d)]
+        jobs.append({"name": rng.choice(["BestBatchSampler", "BestBatchSampler", "ParticleSwarmSampler", "XGBoostSampler"]),
+                     "bounds": [[t[0] for t in dims], [t[1] for t in dims]], "prec": [t[2] for t in dims], "rem": [0] * d, "bs": rng.randint(1, 3),
+                     "seed": rng.randrange(2**31), "ncalls": 4, "rseed": rng.randrange(2**31), "extreme": False, "watch": watch,
+                     "typed": "int" if i % 2 else "f32"})
     return jobs
 
 
@@ -83,5 +92,5 @@ def replay(rep: dict) -> int:
     rng = random.Random(1)
     name = e.get("cls", "BestBatchSampler")
     results = sh.run_jobs([{"name": name, "bounds": e["bounds"], "prec": e["prec"], "rem": e.get("rem", [0] * len(e["prec"])), "bs": e["bs"],
-                            "seed": e["seed"], "ncalls": 3, "rseed": 1}], procs=1)
+                            "seed": e["seed"], "ncalls": 3, "rseed": 1, "typed": e.get("typed")}], procs=1)
     return finish(chk, results, {"sample"}, "replay")
